@@ -1,34 +1,45 @@
 ---------------------------- MODULE SessionIds ----------------------------
 (***************************************************************************)
-(* Abstract model of androguard.session.Session.__init__ run by N          *)
-(* processes on one database (property C36):                               *)
-(*     session_id = len(table_session)          -- Read(p)                 *)
-(*     table_session.insert(dict(id=session_id)) -- Insert(p)              *)
-(* `rows` is the set of primary keys in table session, `seen[p]` the count *)
-(* process p read, `pc[p]` its control state.  An insert of a key that is  *)
-(* already present fails (primary-key constraint) and ends the constructor *)
-(* with an error ("failed").  Pre rows exist before the race.              *)
+(* Abstract model of the TWO-STEP protocol of                              *)
+(* androguard.session.Session.__init__ run by N processes on one database  *)
+(* (property C36), as it was before the repair and as a regression would   *)
+(* re-introduce it:                                                        *)
+(*     session_id = <id computed from the rows read>   -- Read(p)          *)
+(*     table_session.insert(dict(id=session_id))       -- Insert(p)        *)
+(* Rule = "count": id = number of rows (the original code, len(table));    *)
+(* Rule = "max"  : id = max(id)+1, 1 on an empty table.                    *)
+(* `rows` is the set of primary keys in table session, `seen[p]` the id    *)
+(* process p computed, `pc[p]` its control state.  An insert of a key that *)
+(* is already present fails (primary-key constraint) and ends the          *)
+(* constructor with an error ("failed").  PreRows exist before the race.   *)
 (*                                                                         *)
-(* The model is an independent enumerator of the interleavings: every      *)
-(* maximal path of its state graph is replayed on real worker processes    *)
-(* (checks/c36.py) and compared step by step.  It never decides C36.       *)
+(* checks/c36.py selects this model when it OBSERVES two scheduling points *)
+(* (one read, one one-parameter insert) per constructor, instantiates      *)
+(* N / PreRows / Rule from what it observed, replays every maximal path of *)
+(* the state graph on real worker processes and compares step by step.     *)
+(* The model never decides C36.                                            *)
 (***************************************************************************)
 EXTENDS Naturals, FiniteSets
 
-CONSTANTS N,      \* number of concurrent constructors
-          Pre     \* number of sessions already in the table (ids 0 .. Pre-1)
+CONSTANTS N,        \* number of concurrent constructors
+          PreRows,  \* ids already in the table
+          Rule      \* "count" | "max"
 
 VARIABLES rows, pc, seen
 
 vars  == <<rows, pc, seen>>
 Procs == 1..N
 
-Init == /\ rows = {i \in 0..Pre : i < Pre}
+Max(S)    == CHOOSE x \in S : \A y \in S : y <= x
+NextId(S) == IF Rule = "count" THEN Cardinality(S)
+             ELSE IF S = {} THEN 1 ELSE Max(S) + 1
+
+Init == /\ rows = PreRows
         /\ pc   = [p \in Procs |-> "read"]
         /\ seen = [p \in Procs |-> 0]
 
 Read(p) == /\ pc[p] = "read"
-           /\ seen' = [seen EXCEPT ![p] = Cardinality(rows)]
+           /\ seen' = [seen EXCEPT ![p] = NextId(rows)]
            /\ pc'   = [pc EXCEPT ![p] = "insert"]
            /\ UNCHANGED rows
 
